@@ -249,6 +249,7 @@ pub(crate) struct Inner {
     ctrlc_pending: bool,
     ctrlc_waker: Option<Waker>,
     task_count: usize,
+    thread_exit_waker: Option<Waker>,
 }
 
 pub struct World {
@@ -373,6 +374,7 @@ impl World {
             ctrlc_pending: false,
             ctrlc_waker: None,
             task_count: 0,
+            thread_exit_waker: None,
         };
         if let Policy::Pct(d) = inner.cfg.policy {
             // Change points fall within the first few hundred steps, where
@@ -531,6 +533,7 @@ impl World {
         let mut wakers = Vec::new();
         {
             let mut g = self.lock();
+            g.event("thread_end", tid as u64, 0);
             g.threads[tid].state = ThState::Finished;
             if g.threads[tid].end.is_none() {
                 g.threads[tid].end = Some(end);
@@ -538,9 +541,20 @@ impl World {
             if let Some(p) = g.threads[tid].proc_ {
                 g.proc_gone(p, &mut wakers);
             }
+            if let Some(w) = g.thread_exit_waker.take() {
+                wakers.push(w);
+            }
         }
         for w in wakers {
             w.wake();
+        }
+    }
+
+    /// Completes when every listed controlled thread has finished.
+    pub fn join_threads(self: &Arc<World>, tids: Vec<usize>) -> JoinThreads {
+        JoinThreads {
+            world: self.clone(),
+            tids,
         }
     }
 
@@ -1441,6 +1455,28 @@ impl Drop for Sleep {
     fn drop(&mut self) {
         if let Some(c) = &self.cell {
             c.cancelled.store(true, Ordering::SeqCst);
+        }
+    }
+}
+
+pub struct JoinThreads {
+    world: Arc<World>,
+    tids: Vec<usize>,
+}
+
+impl Future for JoinThreads {
+    type Output = ();
+    fn poll(self: Pin<&mut Self>, cx: &mut Context<'_>) -> Poll<()> {
+        let mut g = self.world.lock();
+        if self
+            .tids
+            .iter()
+            .all(|t| g.threads[*t].state == ThState::Finished)
+        {
+            Poll::Ready(())
+        } else {
+            g.thread_exit_waker = Some(cx.waker().clone());
+            Poll::Pending
         }
     }
 }
